@@ -456,6 +456,34 @@ pub fn c20_extras(first_id: usize, names: &[&str]) -> Vec<(usize, String)> {
     }
     out.push((id, format!("#[derive(::darling::FromMeta)]\npub struct U{id};\n#[derive(::darling::FromMeta)]\npub struct D{id} {{ pub default: u8, #[darling(default)] pub ident: ::core::option::Option<u8>, pub attrs: bool, #[darling(skip)] pub data: u8 }}\n", id = id)));
     id += 1;
+    // every hostile name as an ordinary field, as a `multiple` field, and with a converter / default
+    for (k, tr) in traits.iter().enumerate() {
+        let attrs = if *tr == "FromMeta" { "" } else { "#[darling(attributes(ata))]\n" };
+        let _ = k;
+        let plain: String = pool.iter().map(|nm| format!("    #[darling(default)] pub {}: u8,\n", nm)).collect();
+        out.push((id, format!("#[derive(::darling::{tr})]\n{attrs}pub struct AP{id} {{\n{f}}}\n", tr = tr, attrs = attrs, id = id, f = plain)));
+        id += 1;
+        let multi: String = pool.iter().map(|nm| format!("    #[darling(multiple)] pub {}: ::std::vec::Vec<u8>,\n", nm)).collect();
+        out.push((id, format!("#[derive(::darling::{tr})]\n{attrs}pub struct AM{id} {{\n{f}}}\n", tr = tr, attrs = attrs, id = id, f = multi)));
+        id += 1;
+        let conv: String = pool
+            .iter()
+            .enumerate()
+            .map(|(i, nm)| match i % 4 {
+                0 => format!("    #[darling(with = |m| <u8 as ::darling::FromMeta>::from_meta(m))] pub {}: u8,\n", nm),
+                1 => format!("    #[darling(multiple, with = |m| <u8 as ::darling::FromMeta>::from_meta(m), map = \"::core::convert::identity\")] pub {}: ::std::vec::Vec<u8>,\n", nm),
+                2 => format!("    #[darling(default = \"::core::default::Default::default\", and_then = \"::darling::export::Ok\")] pub {}: ::core::option::Option<u8>,\n", nm),
+                _ => format!("    #[darling(skip)] pub {}: u8,\n", nm),
+            })
+            .collect();
+        out.push((id, format!("#[derive(::darling::{tr})]\n{attrs}pub struct AC{id} {{\n{f}}}\n", tr = tr, attrs = attrs, id = id, f = conv)));
+        id += 1;
+    }
+    // hostile names inside struct variants
+    let vfields: String = pool.iter().take(12).map(|nm| format!("{}: u8, ", nm)).collect();
+    let vmulti: String = pool.iter().skip(12).take(12).map(|nm| format!("#[darling(multiple)] {}: ::std::vec::Vec<u8>, ", nm)).collect();
+    out.push((id, format!("#[derive(::darling::FromMeta)]\npub enum AV{id} {{ Unit, A {{ {a} }}, B {{ {b} }} }}\n", id = id, a = vfields, b = vmulti)));
+    id += 1;
     // known finding: a container-level `default` on an enum with a struct variant
     out.push((id, format!("#[derive(::darling::FromMeta)]\n#[darling(default)]\npub enum KD{id} {{ A, B {{ {a}: u8 }} }}\nimpl ::core::default::Default for KD{id} {{ fn default() -> Self {{ KD{id}::A }} }}\n", id = id, a = n(6))));
     id += 1;
